@@ -95,6 +95,56 @@ def _solve_one(ob, timeout_ms, mode):
     s = Solver()
     s.set("timeout", int(timeout_ms))
     neg = Not(goal)
+    if mode == "lin":
+        from .linearize import linearize
+        hs, g, side, nmono = linearize(hyps, goal)
+        if side is not None:
+            s0 = Solver()
+            s0.set("timeout", int(timeout_ms))
+            s0.add(hyps)
+            s0.add(Not(side))
+            if s0.check() != unsat:
+                return "unknown", time.time() - t0, "z3-linearized", "divisor positivity not proved"
+        from .linearize import elim_toint
+        fs, ax = elim_toint(hs + [Not(g)])
+        s.add(fs)
+        s.add(ax)
+        r = s.check()
+        st = "unsat" if r == unsat else "unknown"
+        return st, time.time() - t0, "z3-linearized", (None if r == unsat else f"{r} after clearing denominators / abstracting {nmono} monomials")
+    if mode == "cvc5":
+        # quantifier-free obligations only: clear denominators, abstract monomials, floors as integer variables, cvc5 CLI
+        import subprocess
+        import tempfile
+        from .linearize import elim_toint, linearize
+        if has_quant(list(hyps) + [goal]):
+            return "unknown", 0.0, "cvc5", "quantified: not sent to cvc5"
+        hs, g, side, nmono = linearize(hyps, goal)
+        if side is not None:
+            s0 = Solver()
+            s0.set("timeout", int(timeout_ms))
+            s0.add(hyps)
+            s0.add(Not(side))
+            if s0.check() != unsat:
+                return "unknown", time.time() - t0, "cvc5", "divisor positivity not proved"
+        fs, ax = elim_toint(hs + [Not(g)])
+        s.add(fs)
+        s.add(ax)
+        d = tempfile.mkdtemp(prefix="vfcvc5")
+        try:
+            fn = os.path.join(d, "q.smt2")
+            with open(fn, "w") as fh:
+                fh.write("(set-logic ALL)\n" + s.to_smt2())
+            try:
+                out = subprocess.run(["/usr/bin/cvc5", f"--tlimit={int(timeout_ms)}", fn], capture_output=True, text=True,
+                                     timeout=timeout_ms / 1000 + 5).stdout.strip()
+            except subprocess.TimeoutExpired:
+                out = "timeout"
+        finally:
+            import shutil
+            shutil.rmtree(d, ignore_errors=True)
+        st = "unsat" if out.splitlines()[:1] == ["unsat"] else "unknown"
+        return st, time.time() - t0, "cvc5-1.0.3", (None if st == "unsat" else out[:200])
     if mode == "inst":
         fs = instantiate(hyps, neg)
         s.add(fs)
@@ -191,7 +241,7 @@ def run_pool(obs, idxs, timeout_s, mode, jobs):
     return results
 
 
-def discharge(obs, timeout_s=30, jobs=None, modes=("direct", "inst")):
+def discharge(obs, timeout_s=30, jobs=None, modes=("direct", "lin", "cvc5", "inst")):
     """fills ob.status / time / backend / detail"""
     jobs = jobs or int(os.environ.get("VERIF_JOBS", "16"))
     todo = list(range(len(obs)))
